@@ -36,6 +36,10 @@ func typeUsageMatrix(emit emitFn) {
 		{"recursive-array", "TYPE @t\n[\n  @t\n]\n"},
 		{"alias-cycle", "TYPE @t\n@m\nTYPE @m\n@t\n"},
 		{"recursive-allOf", "TYPE @t\n{ // {allOf: \"@m\"}\n  \"a\": 1\n}\nTYPE @m\n{ // {allOf: \"@t\"}\n  \"b\": 1\n}\n"},
+		// lassos: the type leads into a cycle that does not come back to the type itself
+		{"lasso-union", "TYPE @t\n@m | @o\nTYPE @m\n@m | @r\nTYPE @o\n{\n  \"k\": 1\n}\nTYPE @r regex\n/x+/\n"},
+		{"lasso-alias", "TYPE @t\n@m\nTYPE @m\n@m | @o\nTYPE @o\n{\n  \"k\": 1\n}\n"},
+		{"lasso-long", "TYPE @t\n@m | @o\nTYPE @m\n@n | @o\nTYPE @n\n@m | @o\nTYPE @o\n{\n  \"k\": 1\n}\n"},
 		{"union-of-union", "TYPE @t\n@m | @o\nTYPE @m\n@o | @r\nTYPE @o\n{\n  \"k\": 1\n}\nTYPE @r regex\n/x+/\n"},
 	}
 	forms := []struct{ name, text string }{
